@@ -58,6 +58,14 @@ Sections:
              shows up, `queue_full_truncated` stays 0 (any truncation would be a silent discard by a
              fallible variant), no batch is larger than the capacity. The number of `on_take` watchers
              registered when the processor is done with a batch (= senders the next take wakes) is recorded.
+* `flushw` – the bound while FLUSH WATCHERS sit on the pending batch: the receiver does not take (never run /
+             processor parked / in a retry wait), 0..capacity items pending, then 1-4 of `when_flushed`,
+             `when_empty`, `sync::blocking_flush`, `tokio::blocking_flush`, `tokio::flush` with a timeout of
+             0 / 200 us / 1 ms that expires (its watcher stays attached until the next take), then plain sends
+             (a few fallible ones in between) past the capacity, 1-3 rounds; after every op the usual checks
+             (snapshot and queue_length <= capacity, model length, truncation counter; signature
+             `...:with-a-flush-watcher-attached:after-send`); after the release every attached callback must
+             have run exactly once.
 * `conc`   – 2–8 sender threads + a sampler thread + a real receiver thread that is stalled and
              released; every sender (after each op) and the sampler assert the bound through the
              snapshot; afterwards accepted = delivered ⊎ truncated with `lost == events × capacity`.
@@ -114,11 +122,17 @@ struct RecvLog {
     stalled: bool,
     /// number of extra Pending polls for the next processor future
     next_pending: u8,
+    /// the next completions ask for a retry of the whole batch (`flushw` section only)
+    retry_next: u8,
+    /// the next `on_batch` call is that retry: not a new batch
+    in_retry: bool,
 }
 
 struct GateFut {
     log: Rc<RefCell<RecvLog>>,
     left: u8,
+    /// copy of the batch, only kept when a retry is scripted
+    again: Option<Chan>,
 }
 
 impl Future for GateFut {
@@ -133,6 +147,14 @@ impl Future for GateFut {
             self.left -= 1;
             cx.waker().wake_by_ref();
             return Poll::Pending;
+        }
+        if let Some(batch) = self.again.take() {
+            let mut l = self.log.borrow_mut();
+            if l.retry_next > 0 {
+                l.retry_next -= 1;
+                l.in_retry = true;
+                return Poll::Ready(Err(BatchError::retry(std::io::Error::new(std::io::ErrorKind::Other, "scripted"), batch)));
+            }
         }
         Poll::Ready(Ok(()))
     }
@@ -153,9 +175,14 @@ impl HandRecv {
             |_d: Duration| YieldOnce::new(),
             move |batch: Chan| {
                 let mut l = l2.borrow_mut();
-                l.calls.push(batch);
+                let again = if l.retry_next > 0 { Some(batch.clone()) } else { None };
+                if std::mem::take(&mut l.in_retry) {
+                    // the re-delivery of a batch that is already in the log
+                } else {
+                    l.calls.push(batch);
+                }
                 let left = std::mem::take(&mut l.next_pending);
-                GateFut { log: l2.clone(), left }
+                GateFut { log: l2.clone(), left, again }
             },
         );
         HandRecv {
@@ -703,6 +730,225 @@ fn stall_hand(r: &mut Report, cap: usize, t: Duration, kind: BlockKind) {
         r.violation(&v.sig, &v.what, case);
     }
     r.nontrivial(&("stall-hand", cap, kind));
+}
+
+// ---------------------------------------------------------------------------
+// section `flushw`: the bound while flush watchers are attached to the pending batch
+// ---------------------------------------------------------------------------
+
+#[derive(Clone, Copy, Debug, PartialEq, Eq, Hash)]
+enum NotTaking {
+    /// the receiver future is never polled before the release
+    NeverRun,
+    /// the processor is parked on an earlier batch
+    Parked,
+    /// the receiver sits in the retry wait of an earlier batch
+    Retrying,
+}
+
+#[derive(Clone, Copy, Debug, PartialEq, Eq, Hash, PartialOrd, Ord)]
+enum Attach {
+    WhenFlushed,
+    WhenEmpty,
+    SyncBlockingFlush,
+    #[cfg(feature = "tokio")]
+    TokioBlockingFlush,
+    #[cfg(feature = "tokio")]
+    TokioFlush,
+}
+
+impl Attach {
+    fn all() -> Vec<Attach> {
+        #[allow(unused_mut)]
+        let mut v = vec![Attach::WhenFlushed, Attach::WhenFlushed, Attach::SyncBlockingFlush, Attach::SyncBlockingFlush, Attach::WhenEmpty];
+        #[cfg(feature = "tokio")]
+        if !cfg!(miri) {
+            v.extend([Attach::TokioBlockingFlush, Attach::TokioFlush]);
+        }
+        v
+    }
+}
+
+/// `C09:bound:pending-exceeds-capacity:after-send` -> `C09:bound:pending-exceeds-capacity:<with>:after-send`
+fn with_watchers(mut v: Viol, with: &str) -> Viol {
+    v.sig = if v.sig.contains(":after-") { v.sig.replacen(":after-", &format!(":{}:after-", with), 1) } else { format!("{}:{}", v.sig, with) };
+    v
+}
+
+/// The receiver does not take; >= 1 flush watcher (callback, or the one an expired blocking / async flush leaves
+/// behind) sits on the pending batch, possibly next to empty-watchers; then plain sends go past the capacity.
+/// Oracle = the statement, through `Sys::after_op` after every op; the attached callbacks are counted at the end.
+fn flushw_case(r: &mut Report, seed: u64, cap: usize, idx: u64) {
+    use std::sync::atomic::{AtomicU32, Ordering};
+    let mut g = Rng::stream(seed, &[9, 21, cap as u64, idx]);
+    let sit = [NotTaking::NeverRun, NotTaking::Parked, NotTaking::Retrying][(idx % 3) as usize];
+    let kinds = Attach::all();
+    // rounds of (pre-fill, attach, overflow); the first pre-fill of a receiver that never ran is >= 1 item
+    let rounds = if cfg!(miri) { 1 } else { g.range(1, 3) as usize };
+    let mut script: Vec<(usize, Vec<(Attach, u8)>, usize, u8)> = Vec::new();
+    for k in 0..rounds {
+        let lo = if k == 0 && sit == NotTaking::NeverRun { 1 } else { 0 };
+        let fill = match g.below(4) {
+            0 => cap,
+            1 => lo.max(1).min(cap),
+            2 => lo.max(cap.saturating_sub(1)),
+            _ => g.range(lo as u64, cap as u64) as usize,
+        };
+        let n_att = if cfg!(miri) { 2 } else { g.range(1, 4) as usize };
+        let att: Vec<(Attach, u8)> = (0..n_att).map(|_| (*g.pick(&kinds), g.below(3) as u8)).collect();
+        // enough plain sends to overflow at least once, sometimes several times
+        let over = (cap - fill.min(cap)) + 1 + if g.chance(1, 3) { g.range(0, (2 * cap as u64).min(40)) as usize } else { g.below(2) as usize };
+        script.push((fill, att, over, g.below(4) as u8));
+    }
+    let case = json!({"section": "flushw", "seed": seed, "capacity": cap, "case": idx, "receiver": format!("{:?}", sit),
+        "rounds": script.iter().map(|(f, a, o, m)| json!({"prefill": f, "attach": a.iter().map(|(k, t)| format!("{:?}/t{}", k, t)).collect::<Vec<_>>(), "sends_after": o, "mix": m})).collect::<Vec<_>>()});
+    r.eval();
+    let (mut sys, receiver) = Sys::new(cap);
+    let mut recv = HandRecv::new(receiver);
+    let fired: Vec<Arc<AtomicU32>> = Vec::new();
+    let fired = RefCell::new(fired);
+    let mut next = 1000u64;
+    let mut overflowed_with_flush = false;
+    let mut kinds_seen: Vec<Attach> = Vec::new();
+    let mut run = || -> Result<(), Viol> {
+        match sit {
+            NotTaking::NeverRun => {}
+            NotTaking::Parked | NotTaking::Retrying => {
+                if sit == NotTaking::Parked {
+                    recv.set_stalled(true);
+                } else {
+                    recv.log.borrow_mut().retry_next = 1;
+                }
+                sys.send(r, 1)?;
+                recv.poll(if sit == NotTaking::Parked { 3 } else { 1 }).map_err(|m| viol("C09:receiver-panicked", m))?;
+                let nb = recv.new_batches();
+                if nb != vec![vec![1]] {
+                    return Err(viol("C09:flushw:setup", format!("expected the processor to have been handed [1], saw {:?}", nb)));
+                }
+                sys.delivered(r, nb)?;
+                let snap = sys.sender().verif_snapshot();
+                if !snap.is_in_batch || snap.pending_len != 0 {
+                    return Err(viol("C09:flushw:setup", format!("expected the receiver to be inside a batch with nothing pending, saw {:?}", snap)));
+                }
+            }
+        }
+        for (fill, att, over, mix) in &script {
+            let mut with = "with-a-flush-watcher-attached";
+            for _ in 0..*fill {
+                sys.send(r, next)?;
+                next += 1;
+            }
+            for (kind, tcode) in att {
+                let t = match tcode {
+                    0 => Duration::ZERO,
+                    1 => Duration::from_micros(200),
+                    _ => Duration::from_millis(1),
+                };
+                let before = sys.sender().verif_snapshot();
+                let sender = sys.sender.clone().unwrap();
+                let res = catch(|| match kind {
+                    Attach::WhenFlushed | Attach::WhenEmpty => {
+                        let c = Arc::new(AtomicU32::new(0));
+                        let c2 = c.clone();
+                        let f = move || {
+                            c2.fetch_add(1, Ordering::SeqCst);
+                        };
+                        if *kind == Attach::WhenFlushed {
+                            sender.when_flushed(f);
+                        } else {
+                            sender.when_empty(f);
+                        }
+                        // a callback that ran at once (nothing to wait for) is not an attached watcher
+                        if c.load(Ordering::SeqCst) == 0 {
+                            fired.borrow_mut().push(c);
+                        }
+                        None
+                    }
+                    Attach::SyncBlockingFlush => Some(emit_batcher::sync::blocking_flush(&sender, t)),
+                    #[cfg(feature = "tokio")]
+                    Attach::TokioBlockingFlush => Some(emit_batcher::tokio::blocking_flush(&sender, t)),
+                    #[cfg(feature = "tokio")]
+                    Attach::TokioFlush => {
+                        let rt = tokio::runtime::Builder::new_current_thread().enable_all().build().unwrap();
+                        Some(rt.block_on(emit_batcher::tokio::flush(&sender, t)))
+                    }
+                });
+                drop(sender);
+                let res = res.map_err(|m| viol(format!("C09:flushw:{:?}:panicked", kind), m))?;
+                let after = sys.sender().verif_snapshot();
+                if let Some(flushed) = res {
+                    r.observe(if flushed { "flushw:flush-call:returned-true" } else { "flushw:flush-call:timeout-expired" }, 1);
+                }
+                if after.on_flush > before.on_flush {
+                    r.observe(&format!("flushw:attached:{:?}", kind), 1);
+                    if !kinds_seen.contains(kind) {
+                        kinds_seen.push(*kind);
+                    }
+                }
+                if after.on_take > before.on_take {
+                    r.observe("flushw:attached:WhenEmpty", 1);
+                }
+                // registering a watcher is not a send: nothing about the queue may change
+                sys.after_op(r, "watcher-registration", false).map_err(|v| with_watchers(v, with))?;
+            }
+            for j in 0..*over {
+                let snap = sys.sender().verif_snapshot();
+                with = match (snap.on_flush > 0, snap.on_take > 0) {
+                    (true, true) => "with-flush-and-empty-watchers-attached",
+                    (true, false) => "with-a-flush-watcher-attached",
+                    (false, true) => "with-an-empty-watcher-attached",
+                    (false, false) => "with-no-watcher-attached",
+                };
+                let full = sys.model.full();
+                if full && snap.on_flush > 0 {
+                    overflowed_with_flush = true;
+                    r.observe("flushw:send-on-full-with-flush-watcher-attached", 1);
+                }
+                // mostly plain sends; now and then a fallible one in between (must hand the item back when full)
+                match (*mix, j % 5) {
+                    (1, 3) => sys.try_send(r, next),
+                    (2, 3) if !cfg!(miri) => sys.blocking_send(r, next, Duration::from_micros(100), BlockKind::Sync),
+                    _ => sys.send(r, next),
+                }
+                .map_err(|v| with_watchers(v, with))?;
+                next += 1;
+                // the statement, spelled out once more for the overflow itself
+                if full {
+                    let s2 = sys.sender().verif_snapshot();
+                    if s2.on_flush != snap.on_flush && (*mix, j % 5) != (2, 3) {
+                        r.observe("flushw:flush-watchers-changed-across-a-send", 1);
+                    }
+                }
+            }
+        }
+        // release: the receiver takes, the attached callbacks fire
+        recv.set_stalled(false);
+        recv.poll(60).map_err(|m| viol("C09:receiver-panicked", m))?;
+        let nb = recv.new_batches();
+        sys.delivered(r, nb)?;
+        sys.after_op(r, "receiver-poll", false)?;
+        for c in fired.borrow().iter() {
+            let n = c.load(Ordering::SeqCst);
+            r.observe(&format!("flushw:attached-callback-fired-{}-times", n.min(2)), 1);
+            if n != 1 {
+                return Err(viol(
+                    format!("C09:flushw:attached-callback-fired-{}-times:after-sends-past-capacity", if n == 0 { "0" } else { "2+" }),
+                    format!("a when_flushed / when_empty callback that was attached to the pending batch while sends overflowed it ran {} times within 60 receiver polls after the release", n),
+                ));
+            }
+        }
+        sys.finish(r, &mut recv)
+    };
+    if let Err(v) = run() {
+        r.violation(&v.sig, &v.what, case.clone());
+    }
+    if overflowed_with_flush {
+        kinds_seen.sort();
+        r.nontrivial(&("flushw", cap, sit, kinds_seen));
+    }
+    if r.wants_sample() && overflowed_with_flush && idx == 4 {
+        r.sample(|| case);
+    }
 }
 
 #[cfg_attr(miri, allow(dead_code))]
@@ -2774,7 +3020,8 @@ fn main() {
         &args,
         "model: one evaluation = one seeded op sequence (send / try_send / blocking_send / receiver polls / stalls) checked against the queue model after every op; \
          non-trivial = distinct (capacity, op sequence) in which at least one sender op met a full queue. stall / refill / flood: one evaluation per scripted scenario \
-         (capacity x blocking variant x receiver kind). conc: one evaluation = one multi-threaded run; non-trivial = distinct (capacity, senders, receiver kind, reached capacity?, overflow?, hand-backs?)",
+         (capacity x blocking variant x receiver kind). flushw: one evaluation = one seeded script (receiver not taking, flush / empty watchers attached, sends past the capacity); \
+         non-trivial = distinct (capacity, receiver situation, kinds of flush watcher attached) in which a plain send met a full queue while a flush watcher was attached. conc: one evaluation = one multi-threaded run; non-trivial = distinct (capacity, senders, receiver kind, reached capacity?, overflow?, hand-backs?)",
     );
     let seed = args.seed;
     let only = args.get("section").map(|s| s.to_string());
@@ -2793,6 +3040,9 @@ fn main() {
                 for k in 0..3 {
                     model_case(&mut r, cseed, cap, idx + k, n_ops);
                 }
+            }
+            "flushw" => {
+                flushw_case(&mut r, cseed, cap, idx);
             }
             "stall" => {
                 for kind in BlockKind::all() {
@@ -2905,6 +3155,20 @@ fn main() {
             });
             // leave room for samples of the other sections
             r.samples.truncate(3);
+        });
+    }
+
+    // the bound with flush watchers attached to the pending batch (hand-polled)
+    if want("flushw") {
+        let (args2, caps2) = (args.clone(), caps.clone());
+        bounded_section(&mut r, "flushw", sec_limit, move |r| {
+            let per_cap = if cfg!(miri) { 3 } else { args2.n(120, 1_200) };
+            let total = per_cap * caps2.len() as u64;
+            let caps = &caps2;
+            par_cases(r, &args2, total, |i, r| {
+                let cap = caps[(i % caps.len() as u64) as usize];
+                flushw_case(r, seed, cap, i / caps.len() as u64);
+            });
         });
     }
 
